@@ -97,6 +97,9 @@ func (cl *cluster) stateOracles(v controller.VerifView) {
 				continue
 			}
 			nv := cl.nodes[n].View()
+			if nv.State == "closed" {
+				continue // its process died or restarted; the controller has not noticed yet and it serves nothing
+			}
 			switch b.Mode {
 			case string(types.RW):
 				if d := cl.checkImage([]byte(nv.Data), 0, fmt.Sprintf("RW replica node %d", n)); d != "" {
@@ -266,8 +269,21 @@ func (cl *cluster) oracleVerify(before controller.VerifView, i int, err error) {
 	if dst.Rev != src.Rev {
 		cl.violate("promotion", "promoted-with-different-revision", fmt.Sprintf("node %d promoted with revision counter %d, source has %d", i, dst.Rev, src.Rev))
 	}
-	if be := cl.attachedBE(i); be != nil && cl.synced[be.seq] && dst.Data != src.Data {
-		cl.violate("promotion", "promoted-with-different-data", fmt.Sprintf("node %d promoted after a completed sync but its image differs from node %d's", i, rw[0]))
+	realTask := cl.task != nil && cl.task.kind == "rebuild" && cl.task.node == i
+	if be := cl.attachedBE(i); be != nil && (cl.synced[be.seq] || realTask) && dst.Data != src.Data {
+		cl.violate("promotion", "promoted-with-different-data", fmt.Sprintf("node %d promoted after a completed sync but its image differs from node %d's: %s", i, rw[0], blockDiff(src.Data, dst.Data)))
+	}
+	if realTask && cl.wants("c07") {
+		// every snapshot from the sync point upward is byte-identical on both replicas
+		for _, name := range a {
+			x, okx := cl.nodes[rw[0]].SnapshotImage(name)
+			y, oky := cl.nodes[i].SnapshotImage(name)
+			cl.cnt["snapshot_images_compared"]++
+			if !okx || !oky || x != y {
+				cl.violate("promotion", "promoted-with-different-snapshot", fmt.Sprintf("node %d promoted but snapshot %s differs from node %d's (present %v/%v): %s", i, name, rw[0], okx, oky, blockDiff(x, y)))
+				break
+			}
+		}
 	}
 }
 
@@ -318,7 +334,7 @@ func (cl *cluster) key() string {
 		}
 	}
 	sort.Strings(bl)
-	fmt.Fprintf(&b, "B %v sticky=%v\n", bl, cl.stickyREST)
+	fmt.Fprintf(&b, "B %v sticky=%v task=%s\n", bl, cl.stickyREST, cl.taskDesc())
 	var ack []string
 	for id := 1; id <= cl.nWrites; id++ {
 		ack = append(ack, fmt.Sprint(cl.acked[id]))
@@ -445,6 +461,26 @@ func (cl *cluster) enabled() []string {
 				continue
 			}
 			out = append(out, strings.TrimSuffix(t, "0")+":0")
+		case "RB":
+			if cl.task != nil && !cl.task.done {
+				continue
+			}
+			if len(v.Replicas) == 0 || (c.MaxAdds > 0 && cl.nAdds >= c.MaxAdds) {
+				continue
+			}
+			for i := range cl.nodes {
+				if _, ok := attached[i]; !ok && !cl.down[i] && cl.nodes[i].View().State == "closed" {
+					out = append(out, fmt.Sprintf("RB:%d", i))
+				}
+			}
+		case "Step":
+			if cl.task != nil && !cl.task.done {
+				out = append(out, "Step")
+			}
+		case "Kill":
+			if cl.task != nil && !cl.task.done && (c.MaxRestarts == 0 || cl.nRestart < c.MaxRestarts) {
+				out = append(out, "Kill")
+			}
 		case "Break":
 			for i := range attached {
 				if !cl.stickyREST[fmt.Sprintf("%d/setcheckpoint", i)] && faultsLeft(1) {
@@ -515,6 +551,9 @@ func (cl *cluster) enabled() []string {
 				continue
 			}
 			for i, n := range cl.nodes {
+				if cl.task != nil && !cl.task.done && cl.task.node == i {
+					continue
+				}
 				if _, ok := attached[i]; !ok && n.View().State != "closed" {
 					out = append(out, fmt.Sprintf("Restart:%d", i))
 				}
@@ -568,4 +607,17 @@ func (cl *cluster) conf() string {
 		b.WriteString("\n")
 	}
 	return b.String()
+}
+
+func blockDiff(a, b string) string {
+	var d []string
+	for blk := 0; blk*Block < len(a) && blk*Block < len(b); blk++ {
+		if a[blk*Block:(blk+1)*Block] != b[blk*Block:(blk+1)*Block] {
+			d = append(d, fmt.Sprintf("block %d: source holds write %d, rebuilt replica write %d", blk, a[blk*Block], b[blk*Block]))
+		}
+	}
+	if len(a) != len(b) {
+		d = append(d, fmt.Sprintf("sizes %d/%d", len(a), len(b)))
+	}
+	return strings.Join(d, "; ")
 }
